@@ -174,6 +174,10 @@ def zipStrict {α β : Type} (a : List α) (b : List β) : R (List (α × β)) :
 /-- `b * n` for a bytes value: `n` copies (none for `n ≤ 0`) -/
 def bytesRepeat (b : List Nat) (n : Int) : List Nat := (List.replicate n.toNat b).flatten
 
+/-- `a // b` and `a % b` with a divisor that may be 0: ZeroDivisionError -/
+def floorDiv (a b : Int) : R Int := if b = 0 then .error .zeroDiv else .ok (pyDiv a b)
+def floorMod (a b : Int) : R Int := if b = 0 then .error .zeroDiv else .ok (pyMod a b)
+
 /-- `sum(xs)` -/
 def sum (xs : List Int) : Int := sumInts xs
 
